@@ -180,6 +180,7 @@ func runC13(r *fw.Run, p *fw.Program) {
 	c13Inv(r, p)
 	c13Panic(r, p, scope)
 	c13Wrap(r, p)
+	c13Cast(r, p)
 	c13Alloc(r, p, scope)
 	c13ErrVal(r, p)
 	c13NilRet(r, p, scope)
@@ -209,7 +210,7 @@ func c13Pre(r *fw.Run, p *fw.Program, scope []*ssa.Function) {
 			if class == "assert" {
 				if o := fn.Origin(); o != nil && o.String() == fw.Mod+"/internal/gojqx.CastFn" {
 					if ord[class] == 1 {
-						ru.Except(fw.ShortFn(fn)+"|assert|*", p.Rel(ins.Pos()), "gojqx.CastFn: every assertion any(v).(T) sits in the arm of a type switch on the zero value of T that selected exactly that type")
+						ru.Except(fw.ShortFn(fn)+"|assert|*", p.Rel(ins.Pos()), "gojqx.CastFn: every assertion any(v).(T) sits in the arm of a type switch on the zero value of T that selected exactly that type (decided per instance by C13.cast)")
 					}
 					return
 				}
@@ -638,7 +639,7 @@ func provedOrLifted(p *fw.Program, fn *ssa.Function, env *fw.IntervalEnv, v ssa.
 		}
 		return true, ""
 	}
-	return false, "no local proof for "+v.Name()+" = "+v.String()
+	return false, "no local proof for " + v.Name() + " = " + v.String()
 }
 
 // liftedProved: the requirement on parameter par of fn holds at every static call site (recursively).
@@ -837,13 +838,22 @@ func castFnInstanceBad(p *fw.Program, fn *ssa.Function) string {
 	case *types.Interface:
 		return ""
 	case *types.Basic:
+		// the arms of the type switch match the predeclared types only, not named types built on them
 		switch u.Kind() {
 		case types.Bool, types.Int, types.Float64, types.String:
-			return ""
+			if types.Identical(t, types.Typ[u.Kind()]) {
+				return ""
+			}
 		}
 		return "unsupported basic type " + shortType(t)
-	case *types.Slice, *types.Map:
-		return ""
+	case *types.Slice:
+		if types.Identical(t, types.NewSlice(types.NewInterfaceType(nil, nil))) {
+			return ""
+		}
+	case *types.Map:
+		if types.Identical(t, types.NewMap(types.Typ[types.String], types.NewInterfaceType(nil, nil))) {
+			return ""
+		}
 	case *types.Pointer:
 		if shortType(t) == "*math/big.Int" {
 			return ""
